@@ -22,6 +22,11 @@ PROP = dict(
              "malformed 4%, custom tag 10% (half of the custom tag texts are STRUCTURED: value + 1-3 named arguments, each a flag, 1-3 words, one bracketed group or 2-4 items mixing words and bracketed groups; groups in () [] {} hold 1-5 words separated by blanks / commas, nested up to depth 2 — oracle scan-custom-args reads value and arguments off the tag text with the harness' own reader, not the library's parser), recognised 50% over wire/func/value/prop/prefix/logger (with duplicates, shadowed prop, extra "
              "arguments); structs embedded untagged (descended), embedded tagged, embedded pointer, named, ScanGrp, ConfigurationProperties marker; "
              "a third of the shapes run once more (mode G+<pos><ret>: the generated nesting, 1/3 a fresh re-nesting) next to an EXTRA user InstantiationAware post-processor that is ahead of the recording processor in the chain (priority-ordered with the smallest Order = ahead of every built-in processor, or ordered with the largest Order = behind the built-in ones) and whose PostProcessProperties returns nil / the list it got / a reversed copy / an empty non-nil list / only the built-in-tag properties / only the custom-tag properties / a content-chosen part; compared with the flattened run WITHOUT the extra processor, all oracles unchanged (label extra-returns-without-custom-fields: the returned list leaves out fields the recorder must be handed); "
+             "corpus (fifth round): SELF-CANDIDATE static types X6-X20 — a component that implements the interface its own wire points ask for "
+             "([]Iface / Iface with one other candidate, optional Iface / []Iface with the holder as ONLY candidate, a required point with the "
+             "holder as only candidate = start refused), the points declared directly (flat twins) and in an embedded struct that is the first member, "
+             "after plain members, after another embedded struct, two and three levels deep, first member at every level, first member of a "
+             "non-first embedded struct; each compared with its flat twin (scan-renest) and with the plain form [A] (scan-missed); "
              "non-trivial = at least one embedded level and at least one recognised exported unit; distinct = distinct scenario lines",
         trusted_base=COMMON_TB + ["reflect.StructOf builds types that reflect treats like compiled ones (checked against 4 compiled static types in the corpus)",
                                   "the harness recovers field paths from the real Holder chain by address (zero-size embedded structs have no fields, so no ambiguity)"],
